@@ -669,9 +669,19 @@ func (u *Unmarshaler) processFieldWithEnvValue(fieldType reflect.Type, value ref
 		return err
 	}
 
+	// 指针字段先分配，再按其指向的类型填充
+	for fieldType.Kind() == reflect.Ptr {
+		if !value.CanSet() {
+			return errValueNotSettable
+		}
+
+		maybeNewValue(fieldType, value)
+		fieldType, value = fieldType.Elem(), value.Elem()
+	}
+
 	fieldKind := fieldType.Kind()
-	switch fieldKind {
-	case reflect.Bool:
+	switch {
+	case fieldKind == reflect.Bool:
 		val, err := strconv.ParseBool(envVal)
 		if err != nil {
 			return fmt.Errorf("用环境变量解组字段 %q 出错，%w", fullName, err)
@@ -679,13 +689,14 @@ func (u *Unmarshaler) processFieldWithEnvValue(fieldType reflect.Type, value ref
 
 		value.SetBool(val)
 		return nil
-	case durationType.Kind():
+	case fieldType == durationType:
+		// 只有 time.Duration 才按时长解析；其它 int64 字段按数字处理
 		if err := fillDurationValue(fieldKind, value, envVal); err != nil {
 			return fmt.Errorf("用环境变量解组字段 %q 出错，%w", fullName, err)
 		}
 
 		return nil
-	case reflect.String:
+	case fieldKind == reflect.String:
 		value.SetString(envVal)
 		return nil
 	default:
